@@ -310,92 +310,111 @@ Section VM.
 
   Variable F : list cfunc.          (* p.program.Compiled.Functions *)
 
+  (* what one iteration of the dispatch loop does *)
+  Inductive action : Type :=
+  | ANext (ip : Z) (stk : list value) (m : mstate)
+  | AStop (r : vres)
+  | AForIn (vsc : scope) (vi : Z) (keys : list value) (body : code) (ip_after : Z) (stk : list value) (m : mstate)
+  | ACall (fn : cfunc) (m1 : mstate) (saved : mstate) (ip_after : Z) (stk : list value).
+
+  Definition step (C : code) (ip : Z) (stk : list value) (m : mstate) : action :=
+    if csize C <=? ip then AStop (VDone stk m) else
+    match fetch C ip with
+    | None => AStop VStuck
+    | Some i =>
+      let ip' := ip + isize i in
+      match i with
+      | IJump off => ANext (ip' + off) stk m
+      | IJumpFalse off =>
+          match stk with
+          | v :: t => ANext (if p_to_bool P v then ip' else ip' + off) t m
+          | _ => AStop VStuck end
+      | IJumpTrue off =>
+          match stk with
+          | v :: t => ANext (if p_to_bool P v then ip' + off else ip') t m
+          | _ => AStop VStuck end
+      | IJumpCmp c off =>
+          match stk with
+          | r :: l :: t => ANext (if p_cmpj P c (ms m) l r then ip' + off else ip') t m
+          | _ => AStop VStuck end
+      | INext => AStop (VAbort XNext m)
+      | INextfile => AStop (VAbort XNextfile m)
+      | IExit => AStop (VAbort XExit m)
+      | IExitStatus =>
+          match stk with
+          | v :: _ => AStop (VAbort XExit (with_ms m (p_set_exit P (ms m) v)))
+          | _ => AStop VStuck end
+      | IBreakForIn => AStop (VBrk stk m)
+      | IReturn => match stk with v :: t => AStop (VRet v t m) | _ => AStop VStuck end
+      | IReturnNull => AStop (VRet (p_null P) stk m)
+      | IForIn vsc vi asc ai off =>
+          match sub_code C ip' off with
+          | None => AStop VStuck
+          | Some body => AForIn vsc vi (p_array_keys P (ms m) asc ai) body (ip' + off) stk m
+          end
+      | ICallUser fi arrs =>
+          if fi <? 0 then AStop VStuck else
+          match nth_error F (Z.to_nat fi) with
+          | None => AStop VStuck
+          | Some fn =>
+            if maxCallDepth <=? depth m then AStop (VAbort (XError (p_err_depth P fi)) m) else
+            match pop_n (Z.to_nat (cf_nscalars fn)) stk [] with
+            | None => AStop VStuck
+            | Some (args, _) =>
+                ACall fn {| ms := p_push_arrays P (ms m) arrs (cf_narrays fn); frame := args; depth := depth m + 1 |}
+                      m ip' stk
+            end
+          end
+      | _ =>
+          match exec_simple i stk m with
+          | SOk stk' m' => ANext ip' stk' m'
+          | SErr e m' => AStop (VAbort (XError e) m')
+          | SStuck => AStop VStuck
+          end
+      end
+    end.
+
+  (* CallUser epilogue: restore frame, local arrays and call depth *)
+  Definition restore (saved m2 : mstate) : mstate :=
+    {| ms := p_pop_arrays P (ms m2); frame := frame saved; depth := depth saved |}.
+
   Fixpoint run (fuel : nat) (C : code) (ip : Z) (stk : list value) (m : mstate) : vres :=
     match fuel with
     | O => VFuel
     | S f =>
-      if csize C <=? ip then VDone stk m else
-      match fetch C ip with
-      | None => VStuck
-      | Some i =>
-        let ip' := ip + isize i in
-        match i with
-        | IJump off => run f C (ip' + off) stk m
-        | IJumpFalse off =>
-            match stk with
-            | v :: t => if p_to_bool P v then run f C ip' t m else run f C (ip' + off) t m
-            | _ => VStuck end
-        | IJumpTrue off =>
-            match stk with
-            | v :: t => if p_to_bool P v then run f C (ip' + off) t m else run f C ip' t m
-            | _ => VStuck end
-        | IJumpCmp c off =>
-            match stk with
-            | r :: l :: t => if p_cmpj P c (ms m) l r then run f C (ip' + off) t m else run f C ip' t m
-            | _ => VStuck end
-        | INext => VAbort XNext m
-        | INextfile => VAbort XNextfile m
-        | IExit => VAbort XExit m
-        | IExitStatus =>
-            match stk with
-            | v :: _ => VAbort XExit (with_ms m (p_set_exit P (ms m) v))
-            | _ => VStuck end
-        | IBreakForIn => VBrk stk m
-        | IReturn => match stk with v :: t => VRet v t m | _ => VStuck end
-        | IReturnNull => VRet (p_null P) stk m
-        | IForIn vsc vi asc ai off =>
-            match sub_code C ip' off with
-            | None => VStuck
-            | Some body =>
-              (fix loop (ks : list value) (stk : list value) (m : mstate) : vres :=
-                 match ks with
-                 | [] => run f C (ip' + off) stk m
-                 | k :: ks' =>
-                     match var_write m vsc vi k with
-                     | WStuck => VStuck
-                     | WErr e m1 => VAbort (XError e) m1
-                     | WOk m1 =>
-                         match run f body 0 stk m1 with
-                         | VDone stk' m2 => loop ks' stk' m2
-                         | VBrk stk' m2 => run f C (ip' + off) stk' m2
-                         | other => other
-                         end
+      match step C ip stk m with
+      | ANext ip' stk' m' => run f C ip' stk' m'
+      | AStop r => r
+      | AForIn vsc vi keys body ipa stk0 m0 =>
+          (fix loop (ks : list value) (stk : list value) (m : mstate) : vres :=
+             match ks with
+             | [] => run f C ipa stk m
+             | k :: ks' =>
+                 match var_write m vsc vi k with
+                 | WStuck => VStuck
+                 | WErr e m1 => VAbort (XError e) m1
+                 | WOk m1 =>
+                     match run f body 0 stk m1 with
+                     | VDone stk' m2 => loop ks' stk' m2
+                     | VBrk stk' m2 => run f C ipa stk' m2
+                     | other => other
                      end
-                 end) (p_array_keys P (ms m) asc ai) stk m
-            end
-        | ICallUser fi arrs =>
-            if fi <? 0 then VStuck else
-            match nth_error F (Z.to_nat fi) with
+                 end
+             end) keys stk0 m0
+      | ACall fn m1 saved ipa stk0 =>
+          let finish := fun (v : value) (stk' : list value) (m2 : mstate) =>
+            match pop_n (Z.to_nat (cf_nscalars fn)) stk' [] with
+            | Some (_, t) => run f C ipa (v :: t) (restore saved m2)
             | None => VStuck
-            | Some fn =>
-              if maxCallDepth <=? depth m then VAbort (XError (p_err_depth P fi)) m else
-              match pop_n (Z.to_nat (cf_nscalars fn)) stk [] with
-              | None => VStuck
-              | Some (args, _) =>
-                let m1 := {| ms := p_push_arrays P (ms m) arrs (cf_narrays fn); frame := args; depth := depth m + 1 |} in
-                let restore := fun m2 : mstate => {| ms := p_pop_arrays P (ms m2); frame := frame m; depth := depth m |} in
-                let finish := fun (v : value) (stk' : list value) (m2 : mstate) =>
-                  match pop_n (Z.to_nat (cf_nscalars fn)) stk' [] with
-                  | Some (_, t) => run f C ip' (v :: t) (restore m2)
-                  | None => VStuck
-                  end in
-                match run f (cf_body fn) 0 stk m1 with
-                | VDone stk' m2 => finish (p_null P) stk' m2
-                | VRet v stk' m2 => finish v stk' m2
-                | VBrk stk' m2 => VBrk stk' (restore m2)
-                | VAbort x m2 => VAbort x (restore m2)
-                | VStuck => VStuck
-                | VFuel => VFuel
-                end
-              end
-            end
-        | _ =>
-            match exec_simple i stk m with
-            | SOk stk' m' => run f C ip' stk' m'
-            | SErr e m' => VAbort (XError e) m'
-            | SStuck => VStuck
-            end
-        end
+            end in
+          match run f (cf_body fn) 0 stk0 m1 with
+          | VDone stk' m2 => finish (p_null P) stk' m2
+          | VRet v stk' m2 => finish v stk' m2
+          | VBrk stk' m2 => VBrk stk' (restore saved m2)
+          | VAbort x m2 => VAbort x (restore saved m2)
+          | VStuck => VStuck
+          | VFuel => VFuel
+          end
       end
     end.
 
@@ -417,3 +436,7 @@ Arguments WStuck {value St err}.
 Arguments SOk {value St err}.
 Arguments SErr {value St err}.
 Arguments SStuck {value St err}.
+Arguments ANext {value St err}.
+Arguments AStop {value St err}.
+Arguments AForIn {value St err}.
+Arguments ACall {value St err}.
